@@ -61,6 +61,21 @@ Theorem C13_cluster_flags_roundtrip :
   forall t v : bool, cluster_flags_of_keys (cluster_asdict_keys t v) = (t, v).
 Proof. exact cluster_flags_roundtrip. Qed.
 
+(* Numbered families of HDF5 sub-groups (one per jump type: 'T3Djump-0', 'T3Djump-1', ...): for EVERY number of members and
+   any injective naming, reading the members by number restores the list ... *)
+Theorem C13_numbered_family_roundtrip :
+  forall (K A : Type) (keqb : K -> K -> bool) (name : nat -> K),
+    (forall i j, keqb (name i) (name j) = true <-> i = j) ->
+    forall l : list A, read_by_number keqb name (write_family name l) (length l) = map Some l.
+Proof. exact family_roundtrip. Qed.
+
+(* ... whereas taking them in the group's alphabetical iteration order (decimal names) is wrong from 11 members on *)
+Theorem C13_numbered_family_alphabetical_refuted :
+  exists l : list nat,
+    read_alphabetical (write_family digits l) <> l /\
+    read_alphabetical (write_family digits l) = [0; 1; 10; 2; 3; 4; 5; 6; 7; 8; 9].
+Proof. exact family_alphabetical_refuted. Qed.
+
 Goal True. idtac "ASSUMPTIONS-OF C13_flat_roundtrip_partial". Abort.
 Print Assumptions C13_flat_roundtrip_partial.
 Goal True. idtac "ASSUMPTIONS-OF C13_flat_roundtrip_general". Abort.
@@ -77,3 +92,7 @@ Goal True. idtac "ASSUMPTIONS-OF C13_vtk_roundtrip". Abort.
 Print Assumptions C13_vtk_roundtrip.
 Goal True. idtac "ASSUMPTIONS-OF C13_cluster_flags_roundtrip". Abort.
 Print Assumptions C13_cluster_flags_roundtrip.
+Goal True. idtac "ASSUMPTIONS-OF C13_numbered_family_roundtrip". Abort.
+Print Assumptions C13_numbered_family_roundtrip.
+Goal True. idtac "ASSUMPTIONS-OF C13_numbered_family_alphabetical_refuted". Abort.
+Print Assumptions C13_numbered_family_alphabetical_refuted.
